@@ -6,9 +6,12 @@
 //!   wt.sess S npre en                                -> ok sess=<session_id()>
 //!   wt.open <bi|uni> S npre en wb payload            -> ok sess=.. tx=<every byte h3 and the app wrote on the new stream>
 //!   wt.recv <bi|uni> S npre en early mode history    -> ok sess=.. <nostream | nowt | bi|uni sid=<n> data=<piece.piece..> end=<fin|reset:c|pending>> close=<code|-> stop=<code|->
+//!   wt.recv2 S en mode history                        -> ok sess=.. A <stream a> stop=.. B <stream b> stop=.. close=..   (two uni streams
+//!        6 and 10 open at once; history items a:c<hex> a:F a:R<c> b:... p; every surfaced stream is read concurrently)
 //! en: server built with enable_webtransport(en != 0).  wb: bytes the transport accepts per grant on the opened
 //! stream (0 = unlimited).  early: the peer's uni stream events are delivered before the CONNECT request.
-//! mode: d = quic::RecvStream::poll_data, r<k> = futures AsyncRead with a k-byte buffer.
+//! mode: d = quic::RecvStream::poll_data, r<k> = futures AsyncRead with a k-byte buffer, t<k> = tokio AsyncRead with a
+//! k-byte ReadBuf; prefix s (bidi only): BidiStream::split() first, read the receive half, keep the send half alive.
 //! history: comma separated  c<hex> (chunk arrives) | F | R<code> | p (run the executor to quiescence);
 //! a final `p` is always implied.
 use bytes::{Buf, Bytes};
@@ -28,6 +31,23 @@ struct Progress {
     end: Option<String>,
     opened: bool,
     fail: Option<String>,
+    /// wt.recv2: per transport stream id -> (what was attached, pieces, ending)
+    multi: std::collections::BTreeMap<u64, (String, Vec<Vec<u8>>, Option<String>)>,
+}
+
+fn push_piece(prog: &Prog, key: Option<u64>, b: Vec<u8>) {
+    let mut p = prog.lock().unwrap();
+    match key {
+        None => p.pieces.push(b),
+        Some(k) => p.multi.get_mut(&k).unwrap().1.push(b),
+    }
+}
+fn set_end(prog: &Prog, key: Option<u64>, e: String) {
+    let mut p = prog.lock().unwrap();
+    match key {
+        None => p.end = Some(e),
+        Some(k) => p.multi.get_mut(&k).unwrap().2 = Some(e),
+    }
 }
 
 type Prog = Arc<Mutex<Progress>>;
@@ -36,13 +56,16 @@ type Prog = Arc<Mutex<Progress>>;
 enum Op {
     Sess,
     Open { bidi: bool, payload: Vec<u8> },
-    Recv { bidi: bool, mode: Mode },
+    Recv { bidi: bool, mode: Mode, split: bool },
+    /// accept every uni stream that is surfaced and read all of them concurrently
+    Recv2 { mode: Mode },
 }
 
 #[derive(Clone, Copy)]
 enum Mode {
     Data,
     Read(usize),
+    Tokio(usize),
 }
 
 fn num_in_debug(d: &str) -> String {
@@ -72,36 +95,51 @@ fn quic_end(e: &StreamErrorIncoming) -> String {
     }
 }
 
-async fn read_all<S>(mut s: S, mode: Mode, prog: &Prog)
+async fn read_all<S>(mut s: S, mode: Mode, prog: &Prog, key: Option<u64>)
 where
-    S: quic::RecvStream + futures_util::io::AsyncRead + Unpin,
+    S: quic::RecvStream + futures_util::io::AsyncRead + tokio::io::AsyncRead + Unpin,
 {
     loop {
         match mode {
             Mode::Data => match poll_fn(|cx| s.poll_data(cx)).await {
                 Ok(Some(mut d)) => {
                     let b = d.copy_to_bytes(d.remaining());
-                    prog.lock().unwrap().pieces.push(b.to_vec());
+                    push_piece(prog, key, b.to_vec());
                 }
                 Ok(None) => {
-                    prog.lock().unwrap().end = Some("fin".into());
+                    set_end(prog, key, "fin".into());
                     break;
                 }
                 Err(e) => {
-                    prog.lock().unwrap().end = Some(quic_end(&e));
+                    set_end(prog, key, quic_end(&e));
                     break;
                 }
             },
+            Mode::Tokio(k) => {
+                let mut raw = vec![0u8; k];
+                let mut rb = tokio::io::ReadBuf::new(&mut raw[..]);
+                match poll_fn(|cx| tokio::io::AsyncRead::poll_read(Pin::new(&mut s), cx, &mut rb)).await {
+                    Ok(()) if rb.filled().is_empty() => {
+                        set_end(prog, key, "fin".into());
+                        break;
+                    }
+                    Ok(()) => push_piece(prog, key, rb.filled().to_vec()),
+                    Err(e) => {
+                        set_end(prog, key, io_end(&e));
+                        break;
+                    }
+                }
+            }
             Mode::Read(k) => {
                 let mut buf = vec![0u8; k];
                 match poll_fn(|cx| futures_util::io::AsyncRead::poll_read(Pin::new(&mut s), cx, &mut buf[..])).await {
                     Ok(0) => {
-                        prog.lock().unwrap().end = Some("fin".into());
+                        set_end(prog, key, "fin".into());
                         break;
                     }
-                    Ok(n) => prog.lock().unwrap().pieces.push(buf[..n].to_vec()),
+                    Ok(n) => push_piece(prog, key, buf[..n].to_vec()),
                     Err(e) => {
-                        prog.lock().unwrap().end = Some(io_end(&e));
+                        set_end(prog, key, io_end(&e));
                         break;
                     }
                 }
@@ -215,12 +253,17 @@ async fn app(world: Shared, en: bool, npre: usize, op: Op, prog: Prog) -> String
                 }
             }
         }
-        Op::Recv { bidi, mode } => {
+        Op::Recv { bidi, mode, split } => {
             if bidi {
                 match session.accept_bi().await {
                     Ok(Some(AcceptedBi::BidiStream(sid, s))) => {
                         prog.lock().unwrap().stream = Some(format!("bi sid={}", num_in_debug(&format!("{:?}", sid))));
-                        read_all(s, mode, &prog).await;
+                        if split {
+                            let (_send, recv) = quic::BidiStream::split(s);
+                            read_all(recv, mode, &prog, None).await;
+                        } else {
+                            read_all(s, mode, &prog, None).await;
+                        }
                     }
                     Ok(Some(AcceptedBi::Request(..))) | Ok(None) | Err(_) => {
                         prog.lock().unwrap().stream = Some("nowt".into());
@@ -230,7 +273,7 @@ async fn app(world: Shared, en: bool, npre: usize, op: Op, prog: Prog) -> String
                 match session.accept_uni().await {
                     Ok(Some((sid, s))) => {
                         prog.lock().unwrap().stream = Some(format!("uni sid={}", num_in_debug(&format!("{:?}", sid))));
-                        read_all(s, mode, &prog).await;
+                        read_all(s, mode, &prog, None).await;
                     }
                     Ok(None) => {
                         prog.lock().unwrap().stream = Some("nowt".into());
@@ -240,6 +283,39 @@ async fn app(world: Shared, en: bool, npre: usize, op: Op, prog: Prog) -> String
                     }
                 }
             }
+        }
+        Op::Recv2 { mode } => {
+            use std::future::Future;
+            let mut readers: Vec<Pin<Box<dyn Future<Output = ()> + '_>>> = Vec::new();
+            let prog2 = prog.clone();
+            let mut acc = Box::pin(session.accept_uni());
+            poll_fn(|cx| {
+                loop {
+                    match acc.as_mut().poll(cx) {
+                        std::task::Poll::Ready(Ok(Some((sid, s)))) => {
+                            let id = quic::RecvStream::recv_id(&s).into_inner();
+                            prog2.lock().unwrap().multi.insert(
+                                id,
+                                (format!("uni sid={}", num_in_debug(&format!("{:?}", sid))), vec![], None),
+                            );
+                            let pr = prog2.clone();
+                            readers.push(Box::pin(async move { read_all(s, mode, &pr, Some(id)).await }));
+                            acc = Box::pin(session.accept_uni());
+                        }
+                        std::task::Poll::Ready(_) => {
+                            // Ok(None) or a connection error (visible as close=<code>): stop accepting
+                            acc = Box::pin(session.accept_uni());
+                            break;
+                        }
+                        std::task::Poll::Pending => break,
+                    }
+                }
+                for r in readers.iter_mut() {
+                    let _ = r.as_mut().poll(cx);
+                }
+                std::task::Poll::<()>::Pending
+            })
+            .await;
         }
     }
     // never drop the session: its Drop closes the connection, which is not part of the scenario
@@ -404,7 +480,8 @@ fn main() {
             let s: u64 = s.parse().unwrap();
             let npre: usize = npre.parse().unwrap();
             let bidi = *kind == "bi";
-            let mode = if *mode == "d" { Mode::Data } else { Mode::Read(mode[1..].parse().unwrap()) };
+            let (split, mode) = match mode.strip_prefix('s') { Some(m) => (true, m), None => (false, *mode) };
+            let mode = if mode == "d" { Mode::Data } else if mode.starts_with('t') { Mode::Tokio(mode[1..].parse().unwrap()) } else { Mode::Read(mode[1..].parse().unwrap()) };
             let sid: u64 = if bidi {
                 if s + 4 < (1u64 << 62) {
                     s + 4
@@ -421,7 +498,7 @@ fn main() {
                 pre.push(format!("U{}", sid));
                 pre.extend(its.iter().cloned());
             }
-            let mut su = match establish(s, npre, *en != "0", Op::Recv { bidi, mode }, &pre, 0) {
+            let mut su = match establish(s, npre, *en != "0", Op::Recv { bidi, mode, split }, &pre, 0) {
                 Ok(su) => su,
                 Err(e) => return format!("err {}", e),
             };
@@ -453,6 +530,60 @@ fn main() {
                 }
             };
             format!("ok sess={} {} {}", p.sess.clone().unwrap(), mid, tail(&su.w, sid))
+        }
+        ["wt.recv2", s, en, mode, hist] => {
+            let s: u64 = s.parse().unwrap();
+            let mode = if *mode == "d" {
+                Mode::Data
+            } else if mode.starts_with('t') {
+                Mode::Tokio(mode[1..].parse().unwrap())
+            } else {
+                Mode::Read(mode[1..].parse().unwrap())
+            };
+            let (ida, idb) = (6u64, 10u64);
+            let mut su = match establish(s, 0, *en != "0", Op::Recv2 { mode }, &[], 0) {
+                Ok(su) => su,
+                Err(e) => return format!("err {}", e),
+            };
+            ev(&su.w, &mut su.ex, &format!("U{}", ida));
+            ev(&su.w, &mut su.ex, &format!("U{}", idb));
+            if *hist != "-" {
+                for t in hist.split(',') {
+                    if t == "p" {
+                        su.ex.run();
+                        continue;
+                    }
+                    let (id, rest) = if let Some(r) = t.strip_prefix("a:") {
+                        (ida, r)
+                    } else if let Some(r) = t.strip_prefix("b:") {
+                        (idb, r)
+                    } else {
+                        panic!("driver: bad history item {}", t)
+                    };
+                    let e = items(id, rest).pop().unwrap();
+                    assert!(apply_event(&su.w, &e), "bad event {}", e);
+                }
+            }
+            su.ex.run();
+            let p = su.prog.lock().unwrap();
+            if let Some(f) = &p.fail {
+                return format!("err {}", f);
+            }
+            let show = |id: u64| match p.multi.get(&id) {
+                None => "nostream".to_string(),
+                Some((x, pieces, end)) => {
+                    let data = if pieces.is_empty() {
+                        "-".to_string()
+                    } else {
+                        pieces.iter().map(|b| hex(b)).collect::<Vec<_>>().join(".")
+                    };
+                    format!("{} data={} end={}", x, data, end.clone().unwrap_or_else(|| "pending".into()))
+                }
+            };
+            let g = su.w.lock().unwrap();
+            let close = g.closed.as_ref().map(|c| c.0.to_string()).unwrap_or_else(|| "-".into());
+            let stop = |id: u64| g.streams.get(&id).and_then(|s| s.stopped).map(|c| c.to_string()).unwrap_or_else(|| "-".into());
+            format!("ok sess={} A {} stop={} B {} stop={} close={}", p.sess.clone().unwrap(), show(ida), stop(ida), show(idb), stop(idb), close)
         }
         _ => "driver-error unknown-case".into(),
     });
